@@ -299,9 +299,10 @@ package mem
 //@   nopanic
 
 //@ func (fs *FS) Rename(oldname string, newname string) (err error)
-//@   props C04
+//@   props C03 C04
 //@   requires memOK(fs)
 //@   modifies world(), mapOf(keyvalue.ms(fs.kv).records)
 //@   ensures "gate" [C04] implies(!VP(oldname) || !VP(newname), err != nil && errIs(err, hackpadfs.ErrInvalid) && keyvalue.memSame(fs.kv))
+//@   ensures "tree-file" [C03] implies(old(keyvalue.treeInv(fs.kv)) && !old(keyvalue.rnSrcDir(fs.kv, oldname)), keyvalue.treeInv(fs.kv))
 //@   ensures "inv" memOK(fs)
 //@   nopanic
